@@ -193,6 +193,66 @@ def check_ladder(chk, rid, facts, fn, var, lo, hi, decode, extra_bind=None, labe
                      fn['file'], line, '%s(%s=%d): %s' % (fn['n'], var, v, why), facts_, fn['q'])
     return len(pts)
 
+def r06_3(chk, tier):
+    from .. import cfg as C, guards as G
+    chk.rule('R06.3', 'CBOR string references: min_length_for_stringref equals the stringref specification ladder; encoder and decoder both test '
+                      '`length >= min_length_for_stringref(<current table size>)` and append to their table exactly under that test', floor=10)
+    facts = F.load(['cbor'], tier)
+    sp = c07.spec('cbor.json')['stringref_min_length']
+    fns = [f for f in facts.functions if f['n'] == 'min_length_for_stringref' and f.get('body') is not None and not f.get('dep')]
+    if not fns:
+        fns = [f for f in facts.functions if f['n'] == 'min_length_for_stringref' and f.get('body') is not None]
+    chk.require(fns, 'min_length_for_stringref not found')
+    fn = fns[0]
+    chk.analysed(fn)
+    pts, ks = points_for(fn, 'index', 0, U64)
+    for v in pts:
+        pe = P.PEval(facts, fn, bind={'index': v}, max_depth=1)
+        pe.exec_body(fn, {})
+        rets = [e.extra.get('value') for e in pe.effects if e.kind == 'return' and not e.guards]
+        want = None
+        for bound, n in sp:
+            if bound is None or v <= bound: want = n; break
+        site = U.site(fn, 'index=%d' % v)
+        if rets == [want]: chk.ok('R06.3', site, {'index': v, 'min_length': want} if v in (0, 23, 24, 256, 65536) else None)
+        else: chk.fail('R06.3', U.site(fn, 'rung@%s' % max([k for k in ks if k <= v] or [0])), fn['file'], fn['l'],
+                       'min_length_for_stringref(%d) returns %s, the stringref specification says %d' % (v, rets, want), None, fn['q'])
+    # use sites
+    n_enc = n_dec = 0
+    for f in facts.functions:
+        if f.get('dep') or f.get('body') is None: continue
+        if not f['file'].endswith(('cbor_encoder.hpp', 'cbor_parser.hpp')): continue
+        calls = [c for c in A.walk_no_lambda(f['body']) if c.get('k') == 'CallExpr' and A.callee_name(c) == 'min_length_for_stringref']
+        if not calls: continue
+        g = C.CFG(f['body'])
+        chk.analysed(f)
+        enc = f['file'].endswith('cbor_encoder.hpp')
+        for i, c in enumerate(calls):
+            nd = g.node_of(c)
+            site = U.site(f, 'stringref test#%d' % (i + 1))
+            if nd is None or nd.kind != 'cond':
+                chk.fail('R06.3', site, f['file'], c.get('l'), 'min_length_for_stringref is not used in a branch condition', None, f['q']); continue
+            cmp_ = G.comparison(nd.ast)
+            arg = A.text(A.strip((c.get('args') or [None])[0], casts=True))
+            want_arg = 'next_stringref_' if enc else 'stringref_map_stack_.back().size()'
+            ok_cmp = cmp_ is not None and cmp_[0] == '>=' and any(y is c for y in A.walk(cmp_[2])) and \
+                     A.callee_name(A.strip(cmp_[1], casts=True)) in ('size', 'length')
+            te = [e for e in nd.succ if e.label is True]
+            appends = False
+            if te:
+                for x in G.region_of_edge(g, te[0]):
+                    if isinstance(x.ast, dict):
+                        for cc in A.calls_in(x.ast):
+                            if A.callee_name(cc) in ('emplace', 'emplace_back', 'push_back') and ('stringref' in A.text(cc.get('obj')) ): appends = True
+            if enc: n_enc += 1
+            else: n_dec += 1
+            if ok_cmp and arg == want_arg and appends:
+                chk.ok('R06.3', site, {'function': f['q'], 'condition': A.text(nd.ast)[:90]})
+            else:
+                chk.fail('R06.3', site, f['file'], c.get('l'), 'string reference eligibility in %s is `%s` (table append under it: %s); both sides must test '
+                         '`length >= min_length_for_stringref(%s)` and append under it' % (f['n'], A.text(nd.ast)[:70], appends, want_arg), None, f['q'])
+    chk.require(n_enc >= 2 and n_dec >= 3, 'R06.3: stringref tests found: encoder %d, decoder %d' % (n_enc, n_dec))
+
 def run(chk, tier, only_rule=None):
     chk.explanation = EXPLANATION
     chk.not_decided = NOT_DECIDED
@@ -242,3 +302,4 @@ def run(chk, tier, only_rule=None):
         check_ladder(chk, 'R06.ubjson', facts, fn, 'length', 0, U64, lambda v, o: ubjson_decode(v, o))
     for fn in one('basic_ubjson_encoder', 'visit_uint64'):
         check_ladder(chk, 'R06.ubjson', facts, fn, 'val', 0, U64, lambda v, o: ubjson_decode(v, o), {'tag': tag_none})
+    r06_3(chk, tier)
